@@ -87,6 +87,24 @@ Proof.
   - intros [a' [H _]]. discriminate.
 Qed.
 
+(* which side the boundary instant falls on: the code expires on "since > limit", so a
+   registration whose age is exactly the limit survives the sweep; one nanosecond more and it goes *)
+Lemma boundary_instant h k :
+  (age h k = Some ten_min -> tracked (run (h ++ [Sweep])) k = true) /\
+  (age h k = Some six_h -> used h k = true -> tracked (run (h ++ [Sweep])) k = true) /\
+  (forall a, age h k = Some a -> used h k = false -> ten_min < a -> tracked (run (h ++ [Sweep])) k = false) /\
+  (forall a, age h k = Some a -> six_h < a -> tracked (run (h ++ [Sweep])) k = false).
+Proof.
+  repeat split.
+  - intros A. apply sweep_exact_pre. exists ten_min. split; [exact A | left; lia].
+  - intros A U. apply sweep_exact_pre. exists six_h. split; [exact A | right; split; [exact U | lia]].
+  - intros a A U L. destruct (tracked (run (h ++ [Sweep])) k) eqn:E; [|reflexivity].
+    apply sweep_exact_pre in E as [a' [A' [H|[H _]]]]; rewrite A in A'; inversion A'; subst; [lia | congruence].
+  - intros a A L. destruct (tracked (run (h ++ [Sweep])) k) eqn:E; [|reflexivity].
+    apply sweep_exact_pre in E as [a' [A' [H|[_ H]]]]; rewrite A in A'; inversion A'; subst;
+      unfold ten_min, six_h in *; lia.
+Qed.
+
 (* ------------------------------------------------------------ matching *)
 Lemma lookup_valid (i : inner) id : NoDup (keys i) ->
   existsb (ident_eqb id) (map fst (filter (fun iv => snd iv) i)) = true <-> aget ident_eqb id i = Some true.
